@@ -74,7 +74,11 @@ COLD_CORPUS = [
     (['tcmt', 'first line\n   \nlast line', ['list', [['int', 1]]]], {}),
     (TUPLE_KEYS, {'sort_dict_keys': True}),
     (FSET_KEYS, {'sort_dict_keys': True}),
+    # a struct sequence whose repr cannot be parsed (D26: printed differently before / after the field names were resolved)
+    (['std', 'struct_time_x', [['opaque', 1]] + [['int', j] for j in range(1, 9)]], {}),
+    (['list', [['std', 'struct_time_x', [['int', 1], ['opaque', 2]] + [['int', j] for j in range(2, 9)]], ['std', 'struct_time', [2021, 1, 2, 3, 4, 5, 3, 2, 0]]]], {}),
 ]
+_warmed = []
 
 
 def build_any(r):
@@ -136,6 +140,10 @@ def fixed_cases():
     order = list(range(n)) + list(range(n - 1, -1, -1)) + [1000 + i for i in range(n)] + [i for i in range(n) if i % 2] + [1000 + i for i in range(n - 1, -1, -1)]
     yield {'items': items, 'order': order, 'junk': [0, 3, 50, 7, 1000]}
     yield {'items': [[MIXED_KEYS, {'sort_dict_keys': True}], [['int', 1], {}]], 'order': [0, 1] * 40, 'junk': [1, 17, 333, 5, 64, 2]}   # D17
+    # D26: a struct sequence whose repr cannot be parsed prints the same before and after the field names of its class were resolved
+    weird = ['std', 'struct_time_x', [['opaque', 1]] + [['int', j] for j in range(1, 9)]]
+    yield {'items': [[weird, {}], [['std', 'struct_time', [2020, 1, 2, 3, 4, 5, 3, 2, 0]], {}], [['list', [weird, ['std', 'struct_time', [2021, 1, 2, 3, 4, 5, 3, 2, 0]]]], {}]],
+           'order': [0, 1, 0, 2, 1000, 1002], 'junk': []}
     # D22: an unparseable struct sequence printed first must not change how later ones print
     yield {'fresh_interpreter_history': [['ok', ['std', 'struct_time_x', [['opaque', 1]] + [['int', j] for j in range(1, 9)]], {}],
                                          ['ok', ['std', 'struct_time', [2020, 1, 2, 3, 4, 5, 3, 2, 0]], {}]]}
@@ -200,6 +208,11 @@ def oracle_cold(case):
     """replay of one fresh-interpreter history"""
     hist = case['fresh_interpreter_history']
     mode, r, cfg = hist[-1]
+    if not _warmed:
+        # the warm side: a process that has printed the whole corpus before
+        for cr, ccfg in COLD_CORPUS:
+            values.pp(build_any(cr), **ccfg)
+        _warmed.append(True)
     for _ in range(2):
         p = values.pp(build_any(r), **cfg)
     warm = IDMASK.sub('with id=N>', p.text) if p.exc is None else 'EXC ' + type(p.exc).__name__
